@@ -206,9 +206,168 @@ def r4_path_bytes(ctx):
     return out
 
 
+# ------------------------------------------------------------------------------------------ R5 one-shot emulation
+def r5_oneshot_emulation(ctx, rule="C04.R5"):
+    """Shape of the emulated one-shot open (resolve + reopen) that reproduces openat2(path, flags):
+    the trailing-symlink mode of the lookup is exactly O_NOFOLLOW; the lookup handle is returned as the result
+    (no reopen, i.e. without applying the caller's other flags) only for a symlink that was asked for with O_PATH."""
+    F = ctx.facts
+    T = ctx.tracer
+    out = []
+    b = F.body("resolvers::Resolver::open")
+    cfg = cfg_of(b)
+    res = list(b.calls("resolvers::Resolver::resolve"))
+    if len(res) != 1:
+        return [violated(rule, "Resolver::open:shape", b.where(), "expected one resolve() in the emulated one-shot open")]
+    r = res[0]
+    o = T.origins_of_arg(r, 3)
+    okm = bool(o)
+    for x in o:
+        if not (x.kind == "call" and (x.term.callee or "").endswith("OpenFlags>::contains") and x.term.args[1].is_const and
+                x.term.args[1].int_value() == O_NOFOLLOW):
+            okm = False
+    if okm:
+        out.append(holds(rule, "Resolver::open:nofollow-mode", r.where(), "trailing-symlink mode of the lookup = flags.contains(O_NOFOLLOW)"))
+    else:
+        out.append(violated(rule, "Resolver::open:nofollow-mode", r.where(),
+                            "the trailing-symlink mode of the emulated one-shot open is not exactly 'O_NOFOLLOW requested' (%s): openat2 decides it from O_NOFOLLOW alone" % (o,)))
+    # direct returns of the lookup handle
+    sym = [t for t in b.calls("utils::fd::Metadata::is_symlink")]
+    sym_true = [e.key() for t in sym for e in (bool_edges(b, t) or {"true": []})["true"]]
+    opath_true = []
+    for t in b.calls(re.compile(r"OpenFlags>::contains$")):
+        if t.args[1].is_const and t.args[1].int_value() == O_PATH:
+            be = bool_edges(b, t)
+            if be:
+                opath_true += [e.key() for e in be["true"]]
+    direct = []
+    after = cfg.reachable(r.target) if r.target is not None else set()
+    for blk in b.blocks:
+        if blk.cleanup or blk.idx not in after:
+            continue
+        for s_ in blk.stmts:
+            if s_.kind == "assign" and s_.lhs.is_local and s_.lhs.local == 0 and s_.rv["k"] == "agg" and s_.rv.get("variant") == "Ok":
+                direct.append((blk.idx, s_))
+    if not sym or not opath_true:
+        out.append(violated(rule, "Resolver::open:direct-return", b.where(), "the emulated one-shot open no longer tests is_symlink()/O_PATH (anchor drift)"))
+    for (bb, s_) in direct:
+        w = "%s:%d" % (b.file, s_.line)
+        by_sym = bb in cfg.reachable(cfg.entry, cut_edges=sym_true)
+        by_path = bb in cfg.reachable(cfg.entry, cut_edges=opath_true)
+        if by_sym or by_path:
+            out.append(violated(rule, "Resolver::open:direct-return", w,
+                                "the lookup handle is returned without the reopen that applies the caller's flags although %s: O_PATH|O_DIRECTORY on a file succeeds and the result lacks the requested flags, unlike openat2"
+                                % ("the target need not be a symlink" if by_sym else "O_PATH need not have been requested")))
+        else:
+            out.append(holds(rule, "Resolver::open:direct-return", w, "lookup handle returned as-is only for a symlink opened with O_PATH|O_NOFOLLOW"))
+    # every other success goes through reopen with the caller's flags
+    ro = T.return_origins(b, ("0",))
+    others = [x for x in ro if not (x.kind == "call" and x.term.callee in ("handle::Handle::reopen", "resolvers::openat2::open", "resolvers::Resolver::resolve"))]
+    if others:
+        out.append(violated(rule, "Resolver::open:result-origin", b.where(), "result of the one-shot open has another origin: %s" % others))
+    else:
+        out.append(holds(rule, "Resolver::open:result-origin", b.where(), "result = openat2::open | reopen(flags) | the symlink handle"))
+    return out
+
+
+# ------------------------------------------------------------------------------------------ R6 component queue
+DROPPING = re.compile(r"std::iter::(Filter|FilterMap|SkipWhile|TakeWhile|Skip|Take|StepBy|Flatten|Peekable<std::iter::Filter)<")
+
+
+def r6_component_queue(ctx, rule="C04.R6"):
+    """The emulated walk must see every raw component ('' , '.', '..' included) of the path and of every link body:
+    no dropping adaptor between the splitter and the queue."""
+    F = ctx.facts
+    out = []
+    n = 0
+    # (a) RawComponents::prepend pushes every item
+    pb = F.body("utils::path::RawComponents::<'_>::prepend")
+    for t in pb.calls():
+        if (t.callee or "").startswith("std::iter::Iterator::") or (t.callee or "").startswith("std::iter::DoubleEndedIterator::"):
+            tys = " ".join([t.f.get("full") or ""] + list(t.argtys or []))
+            m = DROPPING.search(tys)
+            key = "prepend:%s" % t.callee.rsplit("::", 1)[-1]
+            n += 1
+            if m or t.callee.rsplit("::", 1)[-1] in ("filter", "filter_map", "skip_while", "take_while", "skip", "take", "step_by"):
+                out.append(violated(rule, key, t.where(), "components of a link body are dropped before they reach the walk (%s): a link to 'file/' then resolves where openat2 returns ENOTDIR" % (m.group(0) if m else t.callee)))
+            else:
+                out.append(holds(rule, key, t.where(), "no dropping adaptor"))
+    for cb in F.closures_of(pb.path):
+        pushes = list(cb.calls(re.compile(r"VecDeque::<T, A>::push_front$")))
+        if not pushes:
+            continue
+        cfg = cfg_of(cb)
+        skip = any(x in cfg.reachable(cfg.entry, cut_nodes=[p_.bb for p_ in pushes]) for x in cfg.return_blocks())
+        n += 1
+        (out.append(violated(rule, "prepend:push", cb.where(), "the closure feeding the queue can return without pushing its component")) if skip else
+         out.append(holds(rule, "prepend:push", cb.where(), "every component is pushed")))
+    # (b) the initial queue of both walks
+    for fn in ("resolvers::opath::imp::do_resolve", "resolvers::procfs::opath_resolve"):
+        b = F.body(fn)
+        for t in b.calls("std::iter::Iterator::collect"):
+            ty = (t.argtys or [""])[0]
+            if "RawComponents" not in ty or "VecDeque" not in (t.rty or ""):
+                continue
+            n += 1
+            key = "%s:initial-queue" % fn.split("::")[-1]
+            m = DROPPING.search(ty)
+            (out.append(violated(rule, key, t.where(), "components of the path are dropped before the walk (%s)" % m.group(0))) if m else
+             out.append(holds(rule, key, t.where(), "queue = every raw component of the path")))
+    if n < 3:
+        out.append(violated(rule, "component-queue:anchors", "", "queue producers not found (anchor drift)"))
+    return out
+
+
+# ------------------------------------------------------------------------------------------ R7 symlink stack
+def r7_symlink_stack_tables(ctx, rule="C04.R7"):
+    """Writer/reader agreement of the symlink stack: the components do_push() drops from a recorded link body are
+    exactly those the walk never pops ('' is walked as '.', and do_pop() ignores '.'); '..' is recorded and popped."""
+    F = ctx.facts
+    from .c03 import excl
+    X = excl(ctx)
+    T = ctx.tracer
+    out = []
+    push = [b for b in F.fn_bodies() if b.path.endswith("SymlinkStack::<F>::do_push")]
+    pop = [b for b in F.fn_bodies() if b.path.endswith("SymlinkStack::<F>::do_pop")]
+    if not push or not pop:
+        return [violated(rule, "symlink-stack:anchors", "", "do_push/do_pop not found")]
+    pb, qb = push[0], pop[0]
+    cls = []
+    for t in pb.calls("std::iter::Iterator::collect"):
+        cls += [c for c in X._closures_in_type((t.argtys or [""])[0], pb) if "Filter" in (t.argtys or [""])[0]]
+    # only the closures that are filter predicates (bool-returning)
+    cls = [c for c in cls if c.local_tys[0] == "bool"]
+    dropped = {c for c in ("", ".", "..") if any(X._closure_rejects(cl, c) for cl in cls)}
+    # do_pop: constants whose equality test leads to Ok(()) without touching the stack
+    cfg = cfg_of(qb)
+    touch = [t.bb for t in qb.calls(re.compile(r"VecDeque::<T, A>::(pop_front|front|get_mut|len)$"))]
+    noop = set()
+    for c in (".", "..", ""):
+        for tst in const_eq_tests_(qb, T, c):
+            tg = cfg.edge_targets_reachable(tst["true"], cut_nodes=touch)
+            if any(x in tg for x in cfg.return_blocks()) and not any(x in cfg.edge_targets_reachable(tst["true"]) for x in touch):
+                noop.add(c)
+    want_dropped = noop | {""}
+    if dropped == want_dropped and ".." not in dropped:
+        out.append(holds(rule, "symlink-stack:noop-components", pb.where(), "do_push drops %s; do_pop ignores %s ('' is walked as '.')" % (sorted(dropped), sorted(noop))))
+    else:
+        out.append(violated(rule, "symlink-stack:noop-components", pb.where(),
+                            "do_push drops %s from recorded link bodies but the walk never pops %s: the stack desynchronises from the walk and partial lookups "
+                            "(mkdir_all through such a link) fail or report the wrong remainder on the emulated backend only" % (sorted(dropped), sorted(want_dropped))))
+    return out
+
+
+def const_eq_tests_(b, T, c):
+    from ..cut import const_eq_tests
+    return const_eq_tests(b, T, c)
+
+
 RULES = [
     ("C04.R1", r1_flag_preservation, 9, False),
     ("C04.R2", r2_validation_before_dispatch, 3, False),
     ("C04.R3", r3_synthesised_errnos, 10, False),
     ("C04.R4", r4_path_bytes, 18, False),
+    ("C04.R5", r5_oneshot_emulation, 3, False),
+    ("C04.R6", r6_component_queue, 5, False),
+    ("C04.R7", r7_symlink_stack_tables, 1, False),
 ]
